@@ -494,6 +494,9 @@ func makeGroups(family string, shapes [][]string) []group {
 	var gs []group
 	for _, s := range shapes {
 		for topo := 1; topo <= 3; topo++ {
+			if topo == 3 && hasHeadToken(s) {
+				continue // operator-position shapes: self and 2-cycle
+			}
 			for _, a := range argStyles {
 				for _, em := range errModes {
 					gs = append(gs, group{Case{Family: family, Shape: s, Topo: topo, Args: a, Err: em}})
@@ -566,7 +569,7 @@ func run(r *core.Run) {
 
 	r.Bound("terminal_positions", terminalTokens)
 	r.Bound("blocking_boundaries", blockerTokens)
-	r.Bound("transparency_only_positions", nontailTokens)
+	r.Bound("transparency_only_positions", append(append([]string{}, nontailTokens...), headTokens...))
 	r.Bound("tail_shape_depth", tailDepth)
 	r.Bound("blocked_base_shape_depth", insDepth)
 	r.Bound("transparency_only_base_shape_depth", 1)
@@ -592,6 +595,7 @@ func run(r *core.Run) {
 	r.Assume("unspecified: step counts, error message text and error stack traces differ legitimately between configurations and are not compared")
 	r.Assume("not demanded: a call that merely appears in a macro's expansion is legitimately collapsed; MACRO-BODY means the call is made while the macro body runs (the macro reads its operands from globals because it cannot see the caller's lexical scope; LOAD-STRING likewise)")
 	r.Assume("thread-first/thread-last around a form that cannot absorb a threaded operand (cond, let, let*, flet, labels, dotimes, thread-*, and for thread-last everything but a call and if-then) go through an `if` whose then-branch is the operand")
+	r.Assume("OP-* positions put the operand in the operator position of a tail call (compound head, zero or one argument, or a let-/labels-bound function called in the head); programs with such a token return functions from the loop (c02-fn) and the top level extracts the payload; self and 2-cycle topologies")
 	r.Assume("NT-* positions (including `and`) are not terminal and XP-* positions put the call in a macro's expansion: only transparency is demanded for them")
 	r.Assume("multiform: the side call (a recursive call in the tail of a NON-last form of a multi-form body) is made with n=-100, so its activation goes straight to the base case, prints there and logs itself in g-log; the program's value is (list result g-log)")
 	r.Assume("one runtime per worker and configuration is reused for up to 256 programs (they only redefine globals); it is dropped when a run leaves frames behind, is cancelled or panics; every disagreement is re-confirmed 5x in fresh runtimes")
@@ -600,7 +604,7 @@ func run(r *core.Run) {
 	fam := map[string]map[int][][]string{
 		"tail":              byDepth(tailShapes(tailDepth)),
 		"blocked":           byDepth(insertedShapes(insDepth, blockerTokens)),
-		"transparency-only": byDepth(insertedShapes(1, nontailTokens)),
+		"transparency-only": byDepth(insertedShapes(1, append(append([]string{}, nontailTokens...), headTokens...))),
 		"multiform":         byDepth(tailShapes(mfDepth)),
 	}
 	for _, f := range []string{"tail", "blocked", "transparency-only", "multiform"} {
